@@ -291,5 +291,21 @@ Align(arrs, join, sort, axis) ==
   IN [arrs |-> [i \in 1..Len(arrs) |-> AlignOne(arrs[i], dims, common, 1)],
       free |-> SelectSeq(dims, LAMBDA d : common[CHOOSE k \in 1..Len(dims) : dims[k] = d].free)]
 
+
+(* ---------- C04: arithmetic between two arrays ---------- *)
+\* result cells are pairs <<cell of a, cell of b>> (either may be NaN); NumPy evaluates the operator in the harness
+BinOp(a, b) ==
+  LET al == Align(<<a, b>>, "outer", FALSE, <<>>)
+      a2 == al.arrs[1]
+      b2 == al.arrs[2]
+      newb == SelectSeq(Idx(b2.dims), LAMBDA j : ~HasDim(a2, b2.dims[j]))
+      dims == a2.dims \o Gather(b2.dims, newb)
+      pa(x) == [i \in 1..NDim(a2) |-> x[i]]
+      pb(x) == [j \in 1..NDim(b2) |-> x[CHOOSE k \in 1..Len(dims) : dims[k] = b2.dims[j]]]
+  IN [arr |-> Mk(dims, a2.kinds \o Gather(b2.kinds, newb), a2.labs \o Gather(b2.labs, newb),
+                 [k \in 1..Len(dims) |-> 0], "f", 0, LAMBDA x : <<At(a2, pa(x)), At(b2, pb(x))>>),
+      free |-> al.free,
+      filled |-> <<NaN \in Rng(a2.cells), NaN \in Rng(b2.cells)>>]
+
 IsPerm(p, n) == Len(p) = n /\ Rng(p) = 1..n
 =============================================================================
